@@ -179,7 +179,7 @@ def r03e(model: Model, rr: RuleResult):
     if "len(parent_glyph.components) == 1" in facts and any(f.startswith("glyph_uses[") and f.endswith("== 1") for f in facts):
         rr.ok("flattening requires exactly one component that is used exactly once in the whole font")
     else:
-        rr.bad(fi, dels[0], f"a component is inlined/deleted under {facts}: a shared outline would disappear for its other users", construct=f"del ufo[component.name] under {facts}")
+        rr.bad_shape(fi, dels[0], f"a component is inlined/deleted under {facts}: a shared outline would disappear for its other users", construct=f"del ufo[component.name] under {facts}")
     t = [norm(st) for st in ast.walk(fi.node) if isinstance(st, ast.Assign)]
     if "component.unicode = parent_glyph.unicode" in t and "ufo[color_glyph.ufo_glyph_name] = component" in t:
         rr.ok("the inlined outline takes over the colour glyph's name and codepoint")
@@ -189,7 +189,7 @@ def r03e(model: Model, rr: RuleResult):
     if cnt and norm(cnt[0].target) == "glyph_uses[glyph.name]":
         rr.ok("use counts are incremented per emitted component")
     else:
-        rr.bad(fi, fi.node, "component use counts are not maintained", construct="_glyf_ufo: glyph_uses")
+        rr.bad_shape(fi, fi.node, "component use counts are not maintained", construct="_glyf_ufo: glyph_uses")
 
 
 # ----------------------------------------------------------------------------------------------- C05
@@ -227,13 +227,13 @@ def r05a(model: Model, rr: RuleResult):
     if ok:
         rr.ok("bounds accumulate through unionRect; the only skip is an empty glyph (no bounds)")
     else:
-        rr.bad(fi, fi.node, "bounds are not accumulated as first-box-then-unionRect over all non-empty glyphs", construct="_bounds: accumulation")
+        rr.bad_shape(fi, fi.node, "bounds are not accumulated as first-box-then-unionRect over all non-empty glyphs", construct="_bounds: accumulation")
     rets = [st for st in walk_body(fi) if isinstance(st, ast.Return)]
     none_ret = [st for st in rets if st.value is None]
     if none_ret and ("bounds is None", True) in [(norm(e), pol) for e, pol in guard_facts(cfg, cfg.node_for(none_ret[0]))]:
         rr.ok("a glyph that paints nothing has no clip box (returns None)")
     else:
-        rr.bad(fi, fi.node, "_bounds does not return None for a glyph without painted outlines", construct="_bounds: None return")
+        rr.bad_shape(fi, fi.node, "_bounds does not return None for a glyph without painted outlines", construct="_bounds: None return")
 
 
 @RULES.rule("C05", "R05b", "bounds are measured in font space through the accumulated transform", floor=2)
@@ -261,7 +261,7 @@ def r05b(model: Model, rr: RuleResult):
         else:
             rr.bad(fi, fi.node, "the glyph drawn is not ufo[glyph_name]", construct="_transformed_glyph_bounds: glyph")
     else:
-        rr.bad(fi, fi.node, "glyph is not drawn through `pen` or the bounds pen's result is not returned", construct="_transformed_glyph_bounds: draw/return")
+        rr.bad_shape(fi, fi.node, "glyph is not drawn through `pen` or the bounds pen's result is not returned", construct="_transformed_glyph_bounds: draw/return")
     bp = [c for c in calls_in(fi) if norm(c.func) == "ControlBoundsPen"]
     if bp:
         rr.ok("ControlBoundsPen (control-point bounds contain the curve)")
@@ -330,17 +330,19 @@ def r05d(model: Model, rr: RuleResult):
     if len(b) != 1:
         raise AnalysisError("_colr_ufo: _bounds call not found")
     at = cfg.node_for(b[0])
-    qd = cfg.reaching(at, "quantization")
-    srcs = sorted(norm(d.value) for d in qd)
+    from ..dataflow import alternatives
+    qarg = b[0].args[1] if len(b[0].args) > 1 else None
+    alts = alternatives(cfg, at, qarg.id, fi) if isinstance(qarg, ast.Name) else []
+    srcs = sorted({v for v, _ in alts})
     if srcs == ["config.clipbox_quantization", "round(config.upem * 0.02)"]:
-        d2 = [d for d in qd if "round" in norm(d.value)][0]
-        facts = [(norm(e), pol) for e, pol in guard_facts(cfg, d2.node)]
-        if ("quantization is None", True) in facts:
+        conds = [c for v, c in alts if v.startswith("round(")][0]
+        unset = [t for t, pol in conds if "is not None" in t and not pol and ("clipbox_quantization" in t or "quantization" in t)]
+        if unset:
             rr.ok("quantization = config.clipbox_quantization, or round(2% of upem) when unset")
         else:
             rr.bad(fi, fi.node, "default quantisation is not limited to the unset case", construct="_colr_ufo: quantization default")
     else:
-        rr.bad(fi, b[0], f"quantization comes from {srcs}", construct="_colr_ufo: quantization sources")
+        rr.bad_shape(fi, b[0], f"quantization comes from {srcs}", construct="_colr_ufo: quantization sources")
     if [norm(a) for a in b[0].args] == ["color_glyph", "quantization"]:
         rr.ok("_bounds(color_glyph, quantization) for the migrated glyph of this iteration")
     else:
@@ -372,7 +374,7 @@ def r05d(model: Model, rr: RuleResult):
     elif ok:
         rr.ok("each glyph with bounds is recorded under its own name, keyed by its own box; no box when _bounds is None")
     else:
-        rr.bad(fi, fi.node, "clip boxes are not recorded per glyph under `bounds is not None`", construct="_colr_ufo: clipBoxes.setdefault")
+        rr.bad_shape(fi, fi.node, "clip boxes are not recorded per glyph under `bounds is not None`", construct="_colr_ufo: clipBoxes.setdefault")
     cb = [st for st in ast.walk(fi.node) if isinstance(st, ast.Assign) and "COLR_CLIP_BOXES_KEY" in norm(st.targets[0])]
     if cb:
         facts = [(norm(e), pol) for e, pol in guard_facts(cfg, cfg.node_for(cb[0]))]
@@ -381,7 +383,7 @@ def r05d(model: Model, rr: RuleResult):
         else:
             rr.bad(fi, cb[0], "clip boxes are stored for the wrong COLR version or in the wrong shape", construct=short(cb[0], 120))
     else:
-        rr.bad(fi, fi.node, "clip boxes never reach ufo.lib", construct="_colr_ufo: COLR_CLIP_BOXES_KEY")
+        rr.bad_shape(fi, fi.node, "clip boxes never reach ufo.lib", construct="_colr_ufo: COLR_CLIP_BOXES_KEY")
 
 
 def _parent_attr_call(fi: FuncInfo, inner: ast.Call) -> Optional[ast.Call]:
